@@ -479,7 +479,8 @@ void buildTable()
     row("Annotator::assignId(AnyCellmlElement)", UNKNOWN, [](Fx &f, int) { return expectEmpty(f.annotator->assignId(f.annotator->item("no_such_id"))); }, "empty-item");
     row("Annotator::assignId(Model)", NUL | NEVER, [](Fx &f, int k) { return expectEmpty(f.annotator->assignId(k == NUL ? ModelPtr() : f.other)); });
     row("Annotator::assignId(Component)", PTR3, [](Fx &f, int k) { return both(expectEmpty(f.annotator->assignId(f.comp(k))), expectEmpty(f.annotator->assignId(f.comp(k), CellmlElementType::COMPONENT_REF))); });
-    row("Annotator::assignId(ImportSource)", NUL | NEVER, [](Fx &f, int k) { return expectEmpty(f.annotator->assignId(f.isrc(k))); });
+    // (an import source has no owner: the suite pins that one outside the annotator's model still gets an identifier, so only null is a bad argument)
+    row("Annotator::assignId(ImportSource)", NUL, [](Fx &f, int k) { return expectEmpty(f.annotator->assignId(f.isrc(k))); });
     row("Annotator::assignId(Reset)", PTR3, [](Fx &f, int k) { return both(expectEmpty(f.annotator->assignId(f.rst(k))), expectEmpty(f.annotator->assignId(f.rst(k), CellmlElementType::TEST_VALUE))); });
     row("Annotator::assignId(Units)", PTR3, [](Fx &f, int k) { return expectEmpty(f.annotator->assignId(f.units(k))); });
     row("Annotator::assignId(UnitsItem)", NUL | NEVER, [](Fx &f, int k) { return expectEmpty(f.annotator->assignId(k == NUL ? UnitsItemPtr() : UnitsItem::create(f.looseUnits, 0))); });
@@ -518,10 +519,11 @@ void buildTable()
         row("Analyser::containsExternalVariable(Model,str,str)", k, [make](Fx &f, int) { return expectFalse(make(f)->containsExternalVariable(f.model, "main", "k")); }, v);
         row("Analyser::externalVariable(Model,str,str)", k, [make](Fx &f, int) { return expectNull(make(f)->externalVariable(f.model, "main", "k").get()); }, v);
         row("Analyser::removeExternalVariable(Model,str,str)", k, [make](Fx &f, int) { return expectFalse(make(f)->removeExternalVariable(f.model, "main", "k")); }, v);
-        row("Analyser::analyseModel(Model)", k, [make](Fx &f, int) {
+        row("Analyser::analyseModel(Model)", k, [make, k](Fx &f, int) {
             auto a = make(f);
             a->analyseModel(f.model);
-            return expectIssue(a);
+            // an external variable on a foreign variable is reported; one without any variable can only be ignored
+            return k == NUL ? noCrash() : expectIssue(a);
         }, v, true);
     }
     // ------------------------------------------------------------------ AnalyserExternalVariable
@@ -586,6 +588,11 @@ void init()
             if (gRows[i].classes & k) {
                 gCases.push_back({i, k});
             }
+        }
+    }
+    if (getenv("C09_ARGS_LIST") != nullptr) { // debugging aid: tape value -> case
+        for (size_t i = 0; i < gCases.size(); ++i) {
+            fprintf(stderr, "%zu %s|%s%s%s\n", i, gRows[gCases[i].row].key.c_str(), className(gCases[i].cls), gRows[gCases[i].row].variant.empty() ? "" : "@", gRows[gCases[i].row].variant.c_str());
         }
     }
     const char *home = getenv("VERIF_HOME");
